@@ -301,6 +301,24 @@ def _typed_block(case, ctx, rng, A, B, shape):
                 for name, uf in COMP:
                     r = ctx.call("sptensor." + name, getattr(SN, name), ttb.tensor(Bd.copy()))
                     _judge(ctx, "sptensor." + name, r, "tensor", uf(An, Bd), exact=False)
+            # ... and against the second operand, sparse and dense, the second operand holding non-finite values of its own at
+            # positions where the first is an implicit zero (0 * inf is NaN, comparisons with NaN are false)
+            Bn_ = np.where(rng.random(shape) < 0.4, B, 0.0)
+            zpos = np.argwhere((An == 0) & (Bn_ != 0))
+            if len(zpos):
+                Bn_[tuple(zpos[int(rng.integers(0, len(zpos)))])] = [np.inf, -np.inf, np.nan][(gen.pick(case) // 3) % 3]
+            stored_b = (Bn_ != 0) | np.isnan(Bn_)
+            sb = np.argwhere(stored_b)
+            if len(sb):
+                ordb = rng.permutation(len(sb))
+                SBn = ttb.sptensor(sb[ordb], Bn_[tuple(sb[ordb].T)].reshape(-1, 1).copy(), shape)
+            else:
+                SBn = ttb.sptensor(shape=shape)
+            for rk_, R_ in (("sptensor", SBn), ("tensor", ttb.tensor(Bn_.copy()))):
+                for name, uf in list(ARITH[:3]) + list(COMP):
+                    exact_ = (name, uf) in list(ARITH[:3])
+                    r = ctx.call("sptensor." + name, getattr(SN, name), R_)
+                    _judge(ctx, "sptensor." + name, r, rk_, uf(An, Bn_), exact=exact_, AB=((An, Bn_) if exact_ else None), both_nonfinite=True)
             r = ctx.call("sptensor.__neg__", operator.neg, SN)
             _judge(ctx, "sptensor.__neg__", r, "-", -An, exact=True)
             r = ctx.call("sptensor.__truediv__", operator.truediv, SN, 2.0)
